@@ -4,6 +4,7 @@ CONSTANTS
   Outsider = {"x1"}
   T = 3
   VerifyAttached = FALSE
+  VerifyEarly = FALSE
   MaxMsgs = 2
   Rep = {1, 3}
   MaxSet = 3
